@@ -1420,3 +1420,12 @@ def str_split_char(ex, args):
 
 @model(r"<(?:std::str::)?Split<'_, char> as Iterator>::(\w+)(?:::<.*>)?")
 def str_split_iter(ex, args, m): return iter_adaptor(ex, m.group(1), deref(args[0]), args[1:], m)
+
+
+@model(r'(?:core::str::|std::str::)?<impl str>::split_at')
+def str_split_at(ex, args):
+    s = as_str(args[0]); mid = args[1]
+    txt = s.concrete()
+    if txt is None or is_sym(mid): raise Unsupported('split_at on symbolic string / index')
+    b = txt.encode('utf-8')
+    return Struct('()', [StrV.of(b[:mid].decode('utf-8')), StrV.of(b[mid:].decode('utf-8'))])
